@@ -62,6 +62,7 @@ def build_worlds(case):
         files[f'{PDIR}/{rel}'] = '\n'.join(text) + '\n'
     for rel, lines in case.get('extra_files', {}).items():
         files[f'{PDIR}/{rel}'] = '\n'.join(lines) + '\n'
+    pre_links = {f'{PDIR}/{rel}': f'{PDIR}/{tgt}' for rel, tgt in case.get('extra_links', {}).items()}
     isa = {f'{PDIR}/{case["isa_name"]}': case['isa_text']}
     sched = case.get('sched', {})
     dirs = list(case.get('inc_dirs', progtree.include_dirs(main)))
@@ -69,7 +70,7 @@ def build_worlds(case):
     if order:
         dirs = [dirs[i] for i in order if i < len(dirs)]
     spells = sched.get('spell', [])
-    links = {}
+    links = dict(pre_links)
     argv_dirs = []
     for i, d in enumerate(dirs):
         how = spells[i] if i < len(spells) else 'plain'
@@ -95,6 +96,19 @@ def build_worlds(case):
     argv = ['bespokeasm', 'compile', '-c', isa_arg, main_arg, '-p', '-t', 'intel_hex']
     for d in argv_dirs:
         argv += ['-I', d]
+    if sched.get('main_symlink') and not sched.get('cwd_elsewhere'):
+        # the file named on the command line is a symbolic link to a file stored elsewhere; included files are looked
+        # up next to the NAME given, not next to the link's target (where a decoy with the same name lies)
+        files['/sim/shared/main.asm'] = files.pop(f'{PDIR}/main.asm')
+        links[f'{PDIR}/main.asm'] = '/sim/shared/main.asm'
+        for rel in progtree.split_files(main):
+            if rel != 'main.asm' and '/' not in rel:
+                files[f'/sim/shared/{rel}'] = '  .byte $DE, $C1\n'
+    if sched.get('crlf'):
+        # some (not all) files of the split world are stored with CR LF line ends
+        for i, pth in enumerate(sorted(files)):
+            if pth.endswith('.asm') and i % 2 == 0:
+                files[pth] = files[pth].replace('\n', '\r\n')
     split = {'files': {**isa, **files}, 'links': links, 'argv': argv, 'cwd': cwd, 'env': {'HOME': '/sim/home'},
              'set_seed': sched.get('set_seed'), 'faults': list(case.get('faults', [])),
              'dirs': [f'{PDIR}/{d}' for d in dirs], 'step_budget': 4_000_000}
@@ -111,6 +125,19 @@ def failed(r):
 
 def check_case(case, ref_result=None):
     split, ref = build_worlds(case)
+    if case.get('xproc'):
+        # negative world in a real interpreter: must be rejected, image must not appear
+        from sim import xproc
+        rr = xproc.run_real(split, PDIR, hashseed=case['xproc'].get('hashseed', 0), pyopt=case['xproc'].get('pyopt', 0))
+        v = []
+        obs = {'kind': case.get('kind'), 'xproc': case['xproc'], 'exit': rr['exit'], 'stderr': rr['stderr'][-200:]}
+        if 'ess_count' in case and count_ess(case['tree']) != case['ess_count']:
+            return {'violations': v, 'observed': obs, 'split': None, 'ref': None}
+        if rr['kind'] == 'exit' and rr['exit'] == 0:
+            v.append(f'INC-accepted-{case.get("kind")}')
+        elif rr['files'].get(f'{PDIR}/main.bin') is not None:
+            v.append('INC-image-written-on-rejected-include')
+        return {'violations': v, 'observed': obs, 'split': None, 'ref': None}
     rs = child.run_world(split)
     kind = case.get('kind', 'positive')
     v = []
@@ -147,7 +174,7 @@ def check_case(case, ref_result=None):
     if not failed(rs):
         v.append(f'INC-accepted-{kind}')
     else:
-        wopens = [e for e in rs['events'] if e[1] == 'open' and e[2] == img and 'w' in (e[3] or '')]
+        wopens = [e for e in rs['events'] if e[1] == 'opened_w' and e[2] == img]
         if rs['files'].get(img) is not None or wopens:
             v.append('INC-image-written-on-rejected-include')
     return {'violations': v, 'observed': obs, 'split': rs, 'ref': None}
@@ -188,6 +215,10 @@ def gen_sched(rnd, ndirs, trivial=False):
         sc['src_dir_again'] = rnd.choice(['dot', 'abs', 'slash'])
     if rnd.random() < 0.25:
         sc['cwd_elsewhere'] = True
+    if rnd.random() < 0.2:
+        sc['crlf'] = True
+    if rnd.random() < 0.15:
+        sc['main_symlink'] = True
     return sc
 
 
@@ -314,6 +345,17 @@ def negatives(case, rnd, tg):
             m['items'].insert(pos + 1 + rnd.randrange(0, len(m['items']) - pos), again)
         c['inc_dirs'] = sorted(set(progtree.include_dirs(m)))
         c['kind'] = 'neg-double-inclusion-after-nested' + ('-via-sibling' if via_sibling else '')
+        out.append(c)
+    if inc_files:
+        # the same NAME in a second search directory, this time as a symbolic link to the first file (same inode):
+        # still "found in more than one search directory"
+        c = clone()
+        m = c['tree']
+        inc = next(it for it in m['items'] if it['t'] == 'inc')['file']
+        other = 'zlnk'
+        c['extra_links'] = {f'{other}/{inc["name"]}': progtree.relpath(inc)}
+        c['inc_dirs'] = progtree.include_dirs(m) + [other]
+        c['kind'] = 'neg-ambiguous-name-symlinked-file'
         out.append(c)
     # a cycle that re-enters a file protected by an include guard: main -> gb (guarded) -> gc -> gb.  The second
     # inclusion would be empty, but a file included more than once must be rejected all the same
@@ -442,11 +484,28 @@ def explore(subseed, cfg):
             nd = len(c2.get('inc_dirs', [])) or ndirs
             c2['sched'] = gen_sched(rnd, nd, trivial=trivial)
             # alias spelling would make the extra ambiguous directory a different story; keep plain there
-            if c2['kind'] == 'neg-ambiguous-name':
+            if c2['kind'] in ('neg-ambiguous-name', 'neg-ambiguous-name-symlinked-file'):
                 c2['sched']['spell'] = ['plain'] * nd
                 c2['sched']['dups'] = []
             account(check_case(c2), c2)
             pr[c2['kind']] = pr.get(c2['kind'], 0) + 1
+    # cross-process tier: negative worlds repeated in real interpreters (real hash seeds, python -O / -OO)
+    if (subseed & 0xFFFFFFFF) % cfg.get('xproc_every', 8) == 0:
+        negs = negatives(case, random.Random(subseed ^ 0xA5A5), tg)
+        for i, c in enumerate(rnd.sample(negs, min(4, len(negs)))):
+            c = copy.deepcopy(c)
+            c['sched'] = {'set_seed': None}
+            c['xproc'] = {'pyopt': [1, 2, 0][i % 3], 'hashseed': rnd.randrange(0, 4000)}
+            try:
+                res = check_case(c)
+            except Exception as e:
+                out['harness'].append(f'xproc: {type(e).__name__}: {e}')
+                continue
+            out['runs'] += 1
+            out['evaluations'] += 1
+            pr['xproc_runs'] = pr.get('xproc_runs', 0) + 1
+            for vv in res['violations']:
+                out['violations'].append({'case': c, 'class': vv, 'group': 'xproc:' + c['kind']})
     # faults on the include files of the positive world
     if nfiles > 1:
         rs = base['split']
